@@ -40,6 +40,37 @@ CLASS_B = {
 CLASS_D = {("Weyl_Psi", "Weyl_Psi4r")}
 
 
+def reiterable_state(rep):
+    """An attribute of the instance that holds a one-shot iterator (map, filter, zip, a
+    generator expression, iter, reversed, enumerate) is used up by the first method that loops
+    over it: the same request evaluated twice (after an eviction, or called directly) would
+    differ.  Every `self.<attr> = ...` of the class is inspected."""
+    S = rep.sources
+    n = 0
+    for q, fn in S.functions(CORE).items():
+        if not q.startswith("AurelCore."):
+            continue
+        for st in ast.walk(fn):
+            if not isinstance(st, ast.Assign):
+                continue
+            for t in st.targets:
+                if isinstance(t, ast.Attribute) and isinstance(t.value, ast.Name) \
+                        and t.value.id == "self":
+                    n += 1
+                    v = st.value
+                    one_shot = isinstance(v, ast.GeneratorExp) or (
+                        isinstance(v, ast.Call) and isinstance(v.func, ast.Name)
+                        and v.func.id in ("map", "filter", "zip", "iter", "reversed",
+                                          "enumerate"))
+                    rep.check(not one_shot, "purity", f"{CORE}::{q}::self.{t.attr}",
+                              f"`{norm_src(st)[:70]}` stores a one-shot iterator in the "
+                              "instance: the first loop over it uses it up, so the quantity "
+                              "computed from it differs the second time it is evaluated",
+                              node=st)
+    if n < 10:
+        raise AnalysisError("instance attribute assignments of AurelCore not found")
+
+
 def methods(S):
     return {q.split(".", 1)[1]: fn for q, fn in S.functions(CORE).items()
             if q.startswith("AurelCore.")}
@@ -546,6 +577,7 @@ def run(rep):
     if len(meths) < 150:
         raise AnalysisError(f"only {len(meths)} AurelCore methods found")
     purity(rep, meths)
+    reiterable_state(rep)
     partners, reverse = guards(rep, meths)
     cycles(rep, meths, partners, reverse)
     protocol(rep, meths)
